@@ -86,6 +86,13 @@ CLAIMED.update({
             "Not decided: liveness of the listener after bad input, memory exhaustion, panics inside third-party libraries, integer overflow of offsets.", "§4 C07"),
 })
 
+CLAIMED.update({
+    "C13": ("static index-safety proofs (compiler prove pass + linear facts engine with call-site preconditions), exactly-once path enumeration, dominance and idiom rules over SSA",
+            "Totality: every fixed-offset read and slice in the timestamp parser is proved in bounds for strings of every length (no reviewed exceptions); the shape test (length 19 and five separators) dominates every digit read and every failing path returns a non-nil error; "
+            "on every path of the transform exactly one of {error counted, Timestamp assigned} happens and the assignment only on the nil-error edge (fallback time kept on errors); the float fraction reaches time.Date only through math.Round. "
+            "Exactness of the calendar arithmetic (time.Date, time.Parse for offsets) and rejection of non-digit bytes are not decided.", "§4 C13"),
+})
+
 NOT_APPLICABLE = {
     "C08": "framing independent of TCP segmentation is an extensional equality between the record sequence under every fragmentation and a reference framer; its truth lives in index arithmetic over runtime offsets, no structural clause short of re-deriving the algorithm is a necessary condition (index SAFETY of multiLineReader is decided under C07)",
     "C14": "completeness/exactness of e-mail redaction is a language-recognition property of a hand-written scanner over all texts (value-level); static analysis in reach decides only its index safety (under C07)",
